@@ -312,3 +312,34 @@ Theorem out_of_range_group_value_rejected e : junk_base <= e -> e < junk_base + 
 Proof.
   intros H1 H2. unfold isGroupElement. apply orb_false_iff. split; [apply N.ltb_ge; exact H1 | apply N.leb_gt; exact H2].
 Qed.
+
+(* ---------------- C15: a conversation talks to one peer instance ---------------- *)
+(* A version 3 message whose (well-formed) tags name another conversation - a receiver tag that is neither zero nor
+   ours, or a sender tag other than the instance we are bound to - is dropped before anything looks at its body:
+   no plaintext, nothing to send, one event, and the state is untouched (whatever the message type and content). *)
+Theorem foreign_instance_ignored now c stag rtag body aux rnd :
+  isOTREnabled (c_policies c) = true -> c_version c = 3 ->
+  c_minValidInstanceTag <= stag -> (rtag = 0 \/ c_minValidInstanceTag <= rtag) ->
+  ((rtag <> 0 /\ rtag <> c_ourTag c) \/ (c_theirTag c <> 0 /\ stag <> c_theirTag c)) ->
+  let '(c', r) := step now c (CReceive (WEnc 3 stag rtag body) aux rnd) in
+  r_plain r = None /\ r_out r = c_injections c /\ r_err r = 0 /\
+  r_events r = [c_MessageEventReceivedMessageForOtherInstance] /\
+  c' = c <| c_injections := [] |>.
+Proof.
+  intros Hp Hv Hs Hr Hf.
+  unfold step, receive. msimpl. rewrite Hp. cbn [negb].
+  unfold receiveDecoded, commitToVersionFrom. msimpl.
+  rewrite Hv. change (negb (3 =? 0)) with true. cbn iota. msimpl.
+  change (0 =? 0) with true. cbn [negb]. msimpl. rewrite Hv. change (3 =? 3) with true. cbn [negb]. msimpl.
+  unfold verifyInstanceTags. msimpl.
+  assert (E1 : (0 <? rtag) && (rtag <? c_minValidInstanceTag) = false).
+  { destruct Hr as [->|Hr]; [reflexivity|]. apply andb_false_iff. right. apply N.ltb_ge. exact Hr. }
+  rewrite E1. assert (E2 : stag <? c_minValidInstanceTag = false) by (apply N.ltb_ge; exact Hs). rewrite E2.
+  assert (E3 : (negb (rtag =? 0) && negb (c_ourTag c =? rtag)) || (negb (c_theirTag c =? 0) && negb (c_theirTag c =? stag)) = true).
+  { apply orb_true_iff. destruct Hf as [[F1 F2]|[F1 F2]]; [left|right]; apply andb_true_iff; split; apply negb_true_iff, N.eqb_neq; congruence. }
+  rewrite E3. msimpl. change (2 =? 1) with false. change (2 =? 2) with true. cbn iota. msimpl.
+  rewrite (forgetVersion_noop 3) by discriminate.
+  unfold forgetTag. change (0 =? 0) with true. cbn [negb andb]. rewrite andb_false_r. msimpl.
+  unfold finish, withInjects. msimpl. cbn [r_plain r_out r_err r_events].
+  repeat split.
+Qed.
